@@ -124,7 +124,7 @@ def make(i, base_seed, tier):
     xt = stream(seed, "tweak")
     # (250 kbps is left out: the chip model lets a radio whose MCU leaves RX mode during a 300 us auto-ACK start its own packet before
     # that ACK has ended - a limit of the model, DESIGN.md section 8 - so only 1 and 2 Mbps networks are generated)
-    rate = xt.choice([1, 1, 1, 2]) if not lossy else 1
+    rate = xt.choice([1, 1, 1, 2, 250]) if not lossy else 1
     if not lossy and xt.random() < 0.3:
         # the application of some node touches its radio at run time between messages - things that change nothing about the network:
         # a power-saving nap, another PA level, its interrupt mask, re-assigning the channel / retry setup it already has
@@ -160,7 +160,8 @@ def make(i, base_seed, tier):
         p = rng.choice([0.02, 0.05, 0.1, 0.2])
         faults = [{"n": n} for n in range(600) if ar.random() < p]
     return {"seed": seed, "rate": rate, "nodes": nodes, "msgs": msgs, "frag": frag, "lossy": lossy, "faults": faults, "stall_on_rx": stall, "backlog": backlog,
-            "tx_timeout": rng.choice([25, 25, 50]), "route_timeout": rng.choice([75, 75, 150])}
+            # (at 250 kbps a frame is on the air four times as long: the application sizes its timeouts accordingly)
+            "tx_timeout": rng.choice([25, 25, 50]) * (3 if rate == 250 else 1), "route_timeout": rng.choice([75, 75, 150]) * (5 if rate == 250 else 1)}
 
 
 def run(scn):
